@@ -414,7 +414,7 @@ func (x *Exec) doMakeSlice(fr *frame, st *State, in *ssa.MakeSlice) {
 		hn, hs := x.elemHeap(et)
 		h := x.heap(st, hn, hs)
 		es := x.sortOf(et)
-		zero := smt.Raw("((as const "+smt.ArraySort(smt.Int, es)+") "+x.zero(et).S+")", smt.ArraySort(smt.Int, es))
+		zero := x.zeroArray(smt.ArraySort(smt.Int, es), x.zero(et))
 		st.heaps[hn] = smt.Store(h, ref, zero)
 	}
 	fr.regs[in] = mkSlice(ref, smt.IntLit(0), ln, cp)
